@@ -73,8 +73,10 @@ type c03JailResult struct {
 	SentStats int      `json:"sentstats"` // STAT packets (without markers) the hostile sender got out before it stopped
 	// steering diagnostics: how often the writer was held between chmod and open,
 	// and how often its write permission was revoked meanwhile
-	HookCalls   int `json:"hookcalls"`
-	HookRevoked int `json:"hookrevoked"`
+	LateData    bool   `json:"latedata,omitempty"` // content for a completed id was sent after the receiver's FIN
+	LateDataID  uint32 `json:"latedataid,omitempty"`
+	HookCalls   int    `json:"hookcalls"`
+	HookRevoked int    `json:"hookrevoked"`
 }
 
 // jailReceive runs inside the chroot.
@@ -141,6 +143,7 @@ func jailReceive(raw json.RawMessage) (any, error) {
 		res.RecvErr = recvErr.Error()
 	}
 	res.Reqs, res.FinSeen, res.Sent, res.SentStats = sr.Reqs, sr.FinSeen, sr.PacketsSent, sr.SentStats
+	res.LateData, res.LateDataID = sr.LateDataSent, sr.LateDataID
 	res.HookCalls, res.HookRevoked = int(atomic.LoadInt32(&hookCalls)), int(atomic.LoadInt32(&hookRevoked))
 	return res, nil
 }
@@ -267,7 +270,7 @@ func genC03(t *rapid.T) *c03Case {
 			}
 			return rapid.IntRange(0, len(c.Stats)-1).Draw(t, li+"pos")
 		}
-		switch rapid.IntRange(0, 14).Draw(t, li+"kind") {
+		switch rapid.IntRange(0, 15).Draw(t, li+"kind") {
 		case 0: // ill-formed path
 			if j := pick(); j >= 0 {
 				c.Stats[j].Path = h.BStr(rapid.SampledFrom(c03BadPaths).Draw(t, li+"bad"))
@@ -366,6 +369,9 @@ func genC03(t *rapid.T) *c03Case {
 				}
 				c.Mutations = append(c.Mutations, fmt.Sprintf("multi-type-mode[%d]", j))
 			}
+		case 15: // content for an id whose request is long complete, after the receiver's FIN
+			c.Script.LateData = rapid.IntRange(1, 4).Draw(t, li+"late")
+			c.Mutations = append(c.Mutations, "data-after-receiver-fin")
 		case 12: // early FIN / ERR / second marker
 			ty := rapid.SampledFrom([]string{"FIN", "ERR", "MARKER", "REQ"}).Draw(t, li+"ctl")
 			c.Script.Inject = append(c.Script.Inject, h.Inject{After: rapid.IntRange(0, len(c.Stats)+2).Draw(t, li+"after"), Type: ty, Data: []byte("boom")})
@@ -479,7 +485,7 @@ func c03Check(env *h.Env, c *c03Case) error {
 		return h.Infra(err)
 	}
 	firstBad, unspecified := c03Classify(c)
-	hostile := firstBad >= 0 || len(c.Script.Inject) > 0 || c.Script.Tail == "eof"
+	hostile := firstBad >= 0 || len(c.Script.Inject) > 0 || c.Script.Tail == "eof" || c.Script.LateData > 0
 	for _, st := range c.Stats {
 		// a mode with several type bits is no entry type at all: verdict open, containment only
 		if tb := os.FileMode(st.Mode) & os.ModeType; tb&(tb-1) != 0 && tb != os.ModeDevice|os.ModeCharDevice {
@@ -569,6 +575,46 @@ func c03Check(env *h.Env, c *c03Case) error {
 			}
 		}
 	}
+	// ... and the old destination is not treated as if the stream had ended there: what
+	// sorts after the last accepted entry has not been compared with anything yet
+	if firstBad >= 0 && !unspecified && !res.Stuck && c.Mode == "normal" && len(c.Script.Inject) == 0 && res.RecvErr != "" {
+		last := ""
+		replacedByNonDir := map[string]bool{}
+		for i := 0; i < firstBad; i++ {
+			last = path.Clean(string(c.Stats[i].Path))
+			if !os.FileMode(c.Stats[i].Mode).IsDir() {
+				replacedByNonDir[last] = true
+			}
+		}
+		sawAny := firstBad > 0
+		if bp := string(c.Stats[firstBad].Path); strings.ContainsRune(bp, 0) {
+			// (a NUL byte is only found out by the file system: the entry itself still
+			// takes part in the comparison with the old destination)
+			last, sawAny = path.Clean(bp), true
+		}
+		for p, b := range before {
+			if !strings.HasPrefix(p, "parent/dest/") {
+				continue
+			}
+			rel := strings.TrimPrefix(p, "parent/dest/")
+			if sawAny && h.CmpComponents(rel, last) <= 0 {
+				continue
+			}
+			under := false
+			for a := path.Dir(rel); a != "." && a != "/"; a = path.Dir(a) {
+				if replacedByNonDir[a] {
+					under = true
+				}
+			}
+			if under {
+				continue
+			}
+			env.Class("old-entry-after-the-offence")
+			if a := after[p]; a == nil || a.Ino != b.Ino {
+				return fmt.Errorf("%s: the stream was rejected at STAT %d (%q), yet the old destination entry %q, which sorts after the last accepted entry %q, was removed or replaced", what, firstBad, c.Stats[firstBad].Path, rel, last)
+			}
+		}
+	}
 	// DATA for an id that can never be requested must fail the call
 	for _, in := range c.Script.Inject {
 		if in.Type == "DATA" && in.After >= 0 && strings.HasPrefix(strings.Join(c.Mutations, " "), "") {
@@ -576,6 +622,14 @@ func c03Check(env *h.Env, c *c03Case) error {
 			if unreq && res.Sent > in.After && res.RecvErr == "" && !res.Stuck && firstBad < 0 && len(c.Script.Inject) == 1 && c.Script.Tail == "echo" {
 				return fmt.Errorf("%s: DATA for id %d, which is never requested, was sent but Receive returned success", what, in.ID)
 			}
+		}
+	}
+	// content for an id that is not (any longer) requested: when the receiver has sent
+	// FIN every request it made is complete, so DATA for one of those ids fails the call
+	if res.LateData {
+		env.Class("data-after-receiver-fin")
+		if res.RecvErr == "" && !res.Stuck {
+			return fmt.Errorf("%s: after the receiver's FIN the sender sent content for id %d, whose request was complete, and Receive returned success", what, res.LateDataID)
 		}
 	}
 	// (3) a legal stream succeeds (a metadata-only selector that picks a hard link
